@@ -110,6 +110,14 @@ def run(ctx):
             n += 1
             if not is_exc(u):
                 check_fixed_point(ctx, u, {"op": op}, ("kernel-colon", op["op"]))
+        from ..gen import long_urls
+
+        for s in long_urls():
+            for op in ({"op": "ctor", "s": s}, {"op": "mod", "base": {"op": "ctor", "s": s}, "m": "with_fragment", "args": ["x y"]}, {"op": "div", "base": {"op": "ctor", "s": s}, "arg": "z"}):
+                u = guarded(apply, op)
+                n += 1
+                if not is_exc(u):
+                    check_fixed_point(ctx, u, {"op": op}, ("kernel-long", op["op"], len(s)))
         ctx.notes["kernel_cases"] = n
         ctx.sample({"op": {"op": "ctor", "s": "HTTPS://u:p@h:81/%2E%2E/a?a=%20&b=+&c=%2B#%23?/"}})
         return
